@@ -36,8 +36,10 @@ async def enum_coercer(
     # pylint: disable=unused-argument
     try:
         enum_value = enum_type.get_value(result)
+        # The declared value itself is serialised, not whatever object
+        # happened to compare equal to it
         coerced_result = await enum_value.output_coercer(
-            result,
+            enum_value.value,
             execution_context.context,
             info,
             context_coercer=execution_context.context,
